@@ -345,6 +345,11 @@ def events(q, tier="quick"):
         ev.append(("add", pk))
         ev.append(("equal", pk))
     ev += [("cat3", 0), ("stack3", 0), ("copy_into_plain",)]
+    if isbytes:
+        # in-place update through an alias covering the whole tensor, then observe the base
+        for al in ("view_flat", "detach", "unsqueeze0") + (("t",) if r == 2 else ()) + (("transpose",) if r >= 2 else ()):
+            for pk in ("same", "diffscale"):
+                ev.append(("alias_copy", al, pk))
     # ---- rescaling
     for c in ("2.0", "0.5", "t3"):
         ev += [("mul", c), ("rmul", c), ("div", c)]
@@ -374,7 +379,7 @@ def events(q, tier="quick"):
     return ev
 
 
-MUTATING = {"copy_into_q"}
+MUTATING = {"copy_into_q", "alias_copy"}
 
 
 def _scalar(c, dtype):
@@ -467,6 +472,27 @@ def build_call(q, ev):
             return (lambda a, b: torch.equal(a, b)), [q, p], X, 0, None
         if name == "copy_into_q":
             return (lambda a, b: a.copy_(b)), [q, p], ("step" if ev[1] == "plain" else X), 0, None
+    if name == "alias_copy":
+        p = partner(q, ev[2])
+        if p is None:
+            return None
+        kind = ev[1]
+
+        def alias_copy(a, b):
+            if kind == "view_flat":
+                al, src = a.view(-1), b.reshape(-1)
+            elif kind == "detach":
+                al, src = a.detach(), b
+            elif kind == "unsqueeze0":
+                al, src = a.unsqueeze(0), b.unsqueeze(0)
+            elif kind == "t":
+                al, src = a.t(), b.t()
+            else:
+                al, src = a.transpose(0, 1), b.transpose(0, 1)
+            al.copy_(src)
+            return a  # the base must see the update made through its alias
+
+        return alias_copy, [q, p], X, 0, None
     if name == "cat3":
         p = partner(q, "same")
         if p is None:
